@@ -176,7 +176,6 @@ Section Prog.
   Variable m0 : WMap.t.
   Variable lab : label -> Z.
   Variable pinfo : string -> option pframe.
-  Variable lay : string -> option playout.
   Variables stack_lo maxframe : Z.
 
   Notation Cm := (C P m0).
@@ -192,7 +191,7 @@ Section Prog.
   Hypothesis Hprocs : forall p pi, pinfo p = Some pi ->
     0 <= lab (pf_entry pi) /\
     exists pr fn ln L bc n' endp,
-      find_proc p (g_procs ge) = Some pr /\ pf_isfunc pi = is_func pr /\ lay p = Some L /\ simple_proc gaddr pr fn ln /\ numbers_ok pr L /\
+      find_proc p (g_procs ge) = Some pr /\ pf_isfunc pi = is_func pr /\ simple_proc gaddr pr fn ln /\ numbers_ok pr L /\
       cs pinfo (frame_venv gaddr pr (pl_size L)) pool (pl_size L) (pl_nslots L) (first_temp pr) (pl_og L) (pl_exit L)
          (body pr) (pl_n0 L) = Some (bc, n') /\
       code_at Cm lab (lab (pf_entry pi)) (pro (pl_size L) ++ bc ++ epi_of (is_func pr) (pl_exit L) (pl_size L)) endp /\ endp < W.
@@ -276,7 +275,7 @@ Section Prog.
       + intros Heq. assert (j = j') by lia. subst j'. rewrite Hj in Hj'. inversion Hj'. contradiction.
       + intros Heq. assert (i = i') by lia. subst i'. rewrite Hi in Hi'. inversion Hi'. contradiction.
       + exact (Hginj x y a a' Ha Ha' Hne).
-    - intros p pi Hp. destruct (Hprocs p pi Hp) as (H0 & pr' & fn' & ln' & L' & bc & n' & endp & _ & _ & _ & _ & _ & _ & Hca & He).
+    - intros p pi Hp. destruct (Hprocs p pi Hp) as (H0 & pr' & fn' & ln' & L' & bc & n' & endp & _ & _ & _ & _ & _ & Hca & He).
       split; [exact H0|]. apply code_at_le in Hca. lia.
     - exact Hcallt.
     - intros f' Hf'. exact (Hc f' Hf' pr fn ln L sp Hfr).
@@ -581,7 +580,7 @@ Section Prog.
   Lemma call_from_stmt f : Stmt_ok f -> Call_ok f.
   Proof.
     intros Hst pr fn ln L sp Hfr p pi vs st m link b inp Hp HR Hargs Hlen Hlink.
-    destruct (Hprocs p pi Hp) as (He0 & pr' & fn' & ln' & L' & bc & n' & endp & Hfind & Hpf & Hlay & Hs' & Hnum' & Hcs & Hca & Hend).
+    destruct (Hprocs p pi Hp) as (He0 & pr' & fn' & ln' & L' & bc & n' & endp & Hfind & Hpf & Hs' & Hnum' & Hcs & Hca & Hend).
     assert (Hko : koff pi = foff pr') by (unfold koff, foff; rewrite Hpf; reflexivity).
     rewrite Hko in Hargs, Hlen.
     unfold invoke. rewrite Hfind, Hpf, Bool.eqb_reflx. cbn [negb].
@@ -702,11 +701,11 @@ Qed.
 
 (* the hypotheses of Section Prog, as one proposition *)
 Definition prog_hyps (ge : genv) (gaddr : string -> option Z) (pool : Z -> option Z) (P : Z -> Prop) (m0 : WMap.t)
-    (lab : label -> Z) (pinfo : string -> option pframe) (lay : string -> option playout) (stack_lo maxframe : Z) : Prop :=
+    (lab : label -> Z) (pinfo : string -> option pframe) (stack_lo maxframe : Z) : Prop :=
   (forall p pi, pinfo p = Some pi ->
      0 <= lab (pf_entry pi) /\
      exists pr fn ln L bc n' endp,
-       find_proc p (g_procs ge) = Some pr /\ pf_isfunc pi = is_func pr /\ lay p = Some L /\ simple_proc gaddr pr fn ln /\ numbers_ok maxframe pr L /\
+       find_proc p (g_procs ge) = Some pr /\ pf_isfunc pi = is_func pr /\ simple_proc gaddr pr fn ln /\ numbers_ok maxframe pr L /\
        cs pinfo (frame_venv gaddr pr (pl_size L)) pool (pl_size L) (pl_nslots L) (first_temp pr) (pl_og L) (pl_exit L)
           (body pr) (pl_n0 L) = Some (bc, n') /\
        code_at (C P m0) lab (lab (pf_entry pi)) (pro (pl_size L) ++ bc ++ epi_of (is_func pr) (pl_exit L) (pl_size L)) endp /\ endp < W) /\
@@ -718,7 +717,7 @@ Definition prog_hyps (ge : genv) (gaddr : string -> option Z) (pool : Z -> optio
   (forall p pi, pinfo p = Some pi -> assoc p (g_vals ge) = None) /\
   0 <= maxframe.
 
-Lemma stmt_calls_of_hyps ge gaddr pool P m0 lab pinfo lay stack_lo maxframe :
-  prog_hyps ge gaddr pool P m0 lab pinfo lay stack_lo maxframe ->
+Lemma stmt_calls_of_hyps ge gaddr pool P m0 lab pinfo stack_lo maxframe :
+  prog_hyps ge gaddr pool P m0 lab pinfo stack_lo maxframe ->
   forall f, Stmt_ok ge gaddr pool P m0 lab pinfo stack_lo maxframe f.
-Proof. intros (H1 & H2 & H3 & H4 & H5 & H6 & H7 & H8). exact (stmt_calls_closed ge gaddr pool P m0 lab pinfo lay stack_lo maxframe H1 H2 H3 H4 H5 H6 H7 H8). Qed.
+Proof. intros (H1 & H2 & H3 & H4 & H5 & H6 & H7 & H8). exact (stmt_calls_closed ge gaddr pool P m0 lab pinfo stack_lo maxframe H1 H2 H3 H4 H5 H6 H7 H8). Qed.
